@@ -454,20 +454,21 @@ class Session:
         inline = call.get("inline", [])
         body_raise = call.get("raise_in_body")
 
+        if isinstance(body_raise, int):
+            body_raise = (min(body_raise, len(inline)),)
+
         def body(lookup_fn):
-            em = Emit(lookup_fn)
-            for i, st in enumerate(inline):
-                if body_raise is not None and body_raise == i:
-                    self.fired = True
-                    raise Injected("injected in with-body at %d" % i)
-                em.stmt(st)
+            def fire():
+                self.fired = True
+                raise Injected("injected in with-body at %s" % (body_raise,))
+            em = Emit(lookup_fn, body_raise if body_raise is not None and tuple(body_raise) != (len(inline),) else None, fire)
+            em.stmts(inline)
             for (p, b) in (extra_pins or []):
                 rel = p
                 tgt = pin_lookup(p)
                 tgt == self.to_py(p, b)
-            if body_raise is not None and body_raise >= len(inline):
-                self.fired = True
-                raise Injected("injected at end of with-body")
+            if body_raise is not None and tuple(body_raise) == (len(inline),):
+                fire()
 
         if kind == "method":
             roots[0].randomize(**flags)
